@@ -26,11 +26,12 @@ Proof.
 Qed.
 Print Assumptions C19_mirror_payload.
 
-(* REFUTED for position reports (known finding mirror.position-truncated) *)
-Theorem C19_mirror_position_refuted :
-  mirror_of MSG_BM_POSITION [52; 18; 0; 120; 86] = Some (MSG_BM_MIRROR_POSITION, [52; 18; 0]) /\
-  mirror_spec MSG_BM_POSITION [52; 18; 0; 120; 86] = Some (MSG_BM_MIRROR_POSITION, [52; 18; 0; 120; 86]).
-Proof. exact mirror_position_refuted. Qed.
+(* position reports: the mirror carries the report's five payload bytes (decoder address, type, location) *)
+Theorem C19_mirror_position : forall data, (5 <= length data)%nat ->
+  mirror_of MSG_BM_POSITION data = mirror_spec MSG_BM_POSITION data /\
+  mirror_spec MSG_BM_POSITION data = Some (MSG_BM_MIRROR_POSITION, firstn 5 data).
+Proof. exact mirror_position. Qed.
+Print Assumptions C19_mirror_position.
 
 (* boards without the feature (absent, value 0, unknown or disconnected sender) are never sent a mirror;
    other message types are never mirrored *)
